@@ -58,6 +58,26 @@ func runRangeChecks(t *testing.T, id string) {
 		}
 		w.close()
 	}
+	// the targeted families of C01 (word fast path, same-line shortcut, periodic text,
+	// many trigrams): single atoms, so range exactness is judged too
+	nFam := rec.N(8, 300)
+	for fi, fam := range c01Families {
+		for i := 0; i < nFam; i++ {
+			st := &c01FamState{}
+			w, err := newWorld(rec, uint64(3_000_000+fi*100_000+i), worldOpt{noDir: i%3 != 0, corpus: func(g *kit.Gen) *kit.Corpus { return fam.corpus(g, st) }})
+			if err != nil {
+				rec.Violation("harness/build-targeted/"+fam.name, err.Error(), nil)
+				continue
+			}
+			qg := kit.NewQGen(w.g, w.c, w.ev)
+			for _, q := range fam.queries(qg, st) {
+				opts := zoekt.SearchOptions{Whole: true, ChunkMatches: w.g.R.IntN(2) == 0, NumContextLines: []int{0, 0, 1, 3}[w.g.R.IntN(4)]}
+				rec.Count("targeted_"+fam.name, 1)
+				rangeOne(rec, id, w, q, opts)
+			}
+			w.close()
+		}
+	}
 }
 
 func rangeOne(rec *kit.Rec, id string, w *world, q query.Q, opts zoekt.SearchOptions) {
